@@ -414,7 +414,7 @@ func TestExample(t *testing.T) {
 			feature = true
 			run.Label("family:recursion-cutoff")
 		default:
-			gc := gen.GenGraph(t, gen.GraphOpts{MaxTypes: 5, Recursion: true}, "g")
+			gc := gen.GenGraph(t, gen.GraphOpts{MaxTypes: 5, Recursion: true, MixedRule: true}, "g")
 			pg := gc.Print(nil)
 			sp := lib.Spec{Schema: pg.Schema, KeysOptional: gc.G.KeysOptional}
 			for _, ty := range pg.Types {
@@ -522,7 +522,7 @@ func TestExampleSharedTypes(t *testing.T) {
 	run.SkipIfReplaying(t)
 	defer run.Done(t, chkShared)
 	rapid.Check(t, func(t *rapid.T) {
-		gc := gen.GenGraph(t, gen.GraphOpts{MaxTypes: 5, Recursion: true}, "g")
+		gc := gen.GenGraph(t, gen.GraphOpts{MaxTypes: 5, Recursion: true, MixedRule: true}, "g")
 		pg := gc.Print(nil)
 		sp := lib.Spec{Schema: pg.Schema, KeysOptional: gc.G.KeysOptional}
 		var scalars []string
